@@ -2,6 +2,7 @@
 """print the prompt for an independent 'seeded breakage' sub-agent for property Cxx (property text only)"""
 import json, sys
 pid, wt = sys.argv[1], sys.argv[2]
+hard = len(sys.argv) > 3 and sys.argv[3] == "--hard"
 p = next(json.loads(l) for l in open('/verif/properties.jsonl') if json.loads(l)['id'] == pid)
 print(f"""You are testing how well a project's safeguards catch subtle regressions. You work ONLY inside the git worktree {wt} (a checkout of the Python project androguard; python is /venv/bin/python, run things with PYTHONPATH={wt}). Do not read or touch /verif or /repo, and do not read anything outside {wt} except the Python standard library / installed packages.
 
@@ -16,4 +17,5 @@ Task: produce ONE small, realistic change to the androguard source in {wt} (the 
   (a) the package still imports, and the existing test suite still passes (run at least the test files that touch the changed module: `cd {wt} && /venv/bin/python -m pytest tests/<relevant>.py -q -p no:cacheprovider -x`; the full suite takes ~6 minutes: `/venv/bin/python -m pytest -q -p no:cacheprovider --timeout=900` — run it at the end; 6 tests fail already WITHOUT any change: tests.test_apk.APKTest::testAPK, ::testCustomPermissionProtectionLevel, ::testFeatures, ::testFrameworkResAPK, ::testMultipleLocaleAppName and tests.test_strings.StringTest::testMUTF8 — ignore those);
   (b) the property above is violated, but only for something specific: an unusual input, a particular multi-step sequence of operations, a boundary value, a particular interleaving or fault, or two cooperating sites that each look fine alone;
   (c) you have a demonstration: a small standalone script `demo.py` (placed in {wt}/seed_demo/) that exits 0 on the UNCHANGED code and exits non-zero (assert failure) WITH your change, by checking the property on the specific triggering input.
+{"IMPORTANT — make it hard to find: assume the project is already guarded by randomized differential tests of this very property (structured random generators for mostly-valid inputs, tables of boundary values such as 0, 1, -1, MIN, MAX, powers of two and their neighbours, byte-level mutations, and exhaustive enumeration of small scopes such as all inputs of 1-2 bytes or all graphs of up to 4 nodes). Choose a trigger that such testing is UNLIKELY to reach: a rare conjunction of two or three independent conditions, a specific non-boundary magic value or size (beyond a few hundred elements / a few kilobytes), a particular ordering or repetition, state carried over from an earlier operation, or a path that only unusual-but-legal inputs take. Estimate in meta.json (key `rarity`) how likely a random well-formed input is to trigger it." if hard else ""}
 Deliver in {wt}/seed_demo/: `patch.diff` (output of `git -C {wt} diff -- androguard` — source changes only), `demo.py`, and `meta.json` with keys: property ("{pid}"), summary (one sentence: what was changed), needs (what specific input/sequence/condition is required for the violation to manifest), files (changed files), ran (the commands you ran and their outcome, including the test results with and without the change). Verify (c) both ways yourself with `git diff -- androguard > seed_demo/patch.diff; git checkout -- androguard; …; git apply seed_demo/patch.diff` (NEVER use `git stash`: the stash is shared with other worktrees of this repository). Leave the worktree with the change APPLIED and seed_demo/ present. Final message: the contents of meta.json. Do not commit.""")
